@@ -275,26 +275,57 @@ func c02SortPools(p *chk.Prog, r *chk.Report) {
 	x.Check("sortPools:SORT-IDX", pos, ok, "", "the comparator indexes something other than the slice being sorted")
 	lf := f.LitFn(sc.Less)
 	lg := lf.Graph()
-	prio := func(idx types.Object) chk.HoleCheck {
-		return chk.H("I", func(e ast.Expr) bool { return lf.ObjOf(e) == idx })
+	// the priority of element idx: P[idx].ServiceAllocations.Priority, or a local defined from it
+	prioOf := func(idx types.Object) func(ast.Expr) bool {
+		direct := func(e ast.Expr) bool {
+			b := lf.MatchNew("P[I].ServiceAllocations.Priority", e)
+			return b != nil && lf.ObjOf(b["I"]) == idx && lf.SameExpr(b["P"], sc.Slice)
+		}
+		return func(e ast.Expr) bool {
+			if direct(e) {
+				return true
+			}
+			if id, ok := ast.Unparen(e).(*ast.Ident); ok {
+				rhs, _ := lg.DefOf(id, lg.FactSite(id))
+				return rhs != nil && direct(rhs)
+			}
+			return false
+		}
 	}
-	bothPos := lg.GPat(true, "P[I].ServiceAllocations.Priority > 0 && P[J].ServiceAllocations.Priority > 0", prio(sc.I), chk.H("J", func(e ast.Expr) bool { return lf.ObjOf(e) == sc.J }))
-	zeroPos := lg.GPat(true, "P[I].ServiceAllocations.Priority == 0 && P[J].ServiceAllocations.Priority > 0", prio(sc.I), chk.H("J", func(e ast.Expr) bool { return lf.ObjOf(e) == sc.J }))
+	pi, pj := prioOf(sc.I), prioOf(sc.J)
+	positive := func(s chk.Site, pr func(ast.Expr) bool) bool {
+		return lg.Dominated(s, chk.GAnyOf(lg.GPat(true, "X > 0", chk.H("X", pr)), lg.GPat(true, "X != 0", chk.H("X", pr))))
+	}
+	isZero := func(s chk.Site, pr func(ast.Expr) bool) bool {
+		return lg.Dominated(s, chk.GAnyOf(lg.GPat(true, "X == 0", chk.H("X", pr)), lg.GPat(false, "X > 0", chk.H("X", pr))))
+	}
 	asc, zeroLast := false, false
 	for _, rt := range lg.Returns() {
 		ret := rt.Node.(*ast.ReturnStmt)
-		if kc := sc.AsKeyCompare(ret); kc != nil {
-			if lf.MatchNew("P[I].ServiceAllocations.Priority", kc.Left) != nil && lg.Dominated(rt, bothPos) {
-				asc = kc.Ascending()
-				if !asc {
-					x.Fail("sortPools:ascending-priority", ret.Pos(), "positive priorities are not ordered ascending (lower number = higher priority)")
-					return
-				}
+		if len(ret.Results) != 1 {
+			continue
+		}
+		e := ret.Results[0]
+		if lf.MatchWith("A < B", e, chk.H("A", pi), chk.H("B", pj)) != nil {
+			// ascending comparison of priorities: only meaningful when both are set
+			if positive(rt, pi) && positive(rt, pj) {
+				asc = true
+			} else {
+				x.Fail("sortPools:ascending-priority", ret.Pos(), "priorities are compared with `<` without both being known positive: a pool without priority (0) would sort first")
+				return
 			}
 			continue
 		}
-		if len(ret.Results) == 1 && lf.IsConstBool(ret.Results[0], false) && lg.Dominated(rt, zeroPos) {
+		if lf.MatchWith("A > B", e, chk.H("A", pi), chk.H("B", pj)) != nil {
+			x.Fail("sortPools:ascending-priority", ret.Pos(), "positive priorities are not ordered ascending (lower number = higher priority)")
+			return
+		}
+		if lf.IsConstBool(e, false) && isZero(rt, pi) {
 			zeroLast = true
+		}
+		if lf.IsConstBool(e, true) && isZero(rt, pi) && positive(rt, pj) {
+			x.Fail("sortPools:zero-last", ret.Pos(), "a pool without priority is ordered before a pool with a positive priority")
+			return
 		}
 	}
 	x.Check("sortPools:ascending-priority", sc.Less.Pos(), asc, "", "no `return P[i].prio < P[j].prio` under the both-positive guard")
